@@ -122,6 +122,10 @@ type Env struct {
 
 	started, returned atomic.Int64
 	QuiesceTimeout    time.Duration
+	// body readers blocked at an unreleased gate (each keeps one write loop busy inside Read)
+	gateParked atomic.Int64
+	gateMu     sync.Mutex
+	gate       chan struct{}
 	// timers: the client runs with MaxResponseTime > 0, so a timer goroutine may be between resolving a
 	// request and resetting its stream ((*Ctx).fireTimeout); quiescence then also needs no such goroutine
 	timers bool
@@ -200,6 +204,7 @@ func (c *SConn) serve(p ConnPlan) {
 
 // Close tears everything down.
 func (e *Env) Close() {
+	e.ReleaseBodies() // a body reader left at its gate would keep a write loop, and its caller, alive for ever
 	if e.CL != nil {
 		_ = e.CL.Close()
 	}
@@ -601,15 +606,26 @@ type ReqSpec struct {
 	// Mode: 0 no body / buffered; 1 SetBodyStream declared; 2 SetBodyStream unknown (-1); 3 SetBodyStream empty
 	Mode   int   `json:"mode,omitempty"`
 	Chunks []int `json:"chunks,omitempty"`
+	// Gate (streamed bodies): the first Read blocks until Env.ReleaseBodies is called: a slow body source. The
+	// client's write loop is inside that Read meanwhile (HEADERS are out, nothing else can be written).
+	Gate bool `json:"gate,omitempty"`
 }
 
 type bodyReader struct {
 	data   []byte
 	chunks []int
 	i      int
+	gate   chan struct{} // nil: never blocks
+	parked *atomic.Int64
 }
 
 func (r *bodyReader) Read(p []byte) (int, error) {
+	if r.gate != nil {
+		r.parked.Add(1)
+		<-r.gate
+		r.parked.Add(-1)
+		r.gate = nil
+	}
 	if len(r.data) == 0 {
 		return 0, io.EOF
 	}
@@ -649,9 +665,9 @@ func (e *Env) Do(r ReqSpec) *Call {
 				req.SetBody(body)
 			}
 		case 1:
-			req.SetBodyStream(&bodyReader{data: body, chunks: r.Chunks}, len(body))
+			req.SetBodyStream(&bodyReader{data: body, chunks: r.Chunks, gate: e.gateFor(r.Gate), parked: &e.gateParked}, len(body))
 		case 2:
-			req.SetBodyStream(&bodyReader{data: body, chunks: r.Chunks}, -1)
+			req.SetBodyStream(&bodyReader{data: body, chunks: r.Chunks, gate: e.gateFor(r.Gate), parked: &e.gateParked}, -1)
 		case 3:
 			req.SetBodyStream(&bodyReader{}, 0)
 		}
@@ -671,6 +687,28 @@ func (e *Env) Do(r ReqSpec) *Call {
 		e.returned.Add(1) // last: quiescence counts a call as returned only once its result is visible
 	}()
 	return call
+}
+
+func (e *Env) gateFor(want bool) chan struct{} {
+	if !want {
+		return nil
+	}
+	e.gateMu.Lock()
+	defer e.gateMu.Unlock()
+	if e.gate == nil {
+		e.gate = make(chan struct{})
+	}
+	return e.gate
+}
+
+// ReleaseBodies lets every gated body reader go on.
+func (e *Env) ReleaseBodies() {
+	e.gateMu.Lock()
+	if e.gate != nil {
+		close(e.gate)
+		e.gate = nil
+	}
+	e.gateMu.Unlock()
 }
 
 func (c *Call) Finished() bool {
@@ -696,6 +734,7 @@ type connSnap struct {
 
 type envSnap struct {
 	started, returned int64
+	gateParked        int64
 	conns             int
 	c                 [8]connSnap
 }
@@ -703,6 +742,7 @@ type envSnap struct {
 func (e *Env) snapshot() envSnap {
 	var s envSnap
 	s.started, s.returned = e.started.Load(), e.returned.Load()
+	s.gateParked = e.gateParked.Load()
 	conns := e.ConnsCopy()
 	s.conns = len(conns)
 	for i, c := range conns {
@@ -724,6 +764,7 @@ func (e *Env) snapshot() envSnap {
 }
 
 func (s envSnap) quiet() bool {
+	busyAllowed := s.gateParked // a write loop inside the Read of a gated body is busy and will stay so
 	for i := 0; i < s.conns && i < len(s.c); i++ {
 		c := s.c[i]
 		e := c.ev
@@ -733,7 +774,13 @@ func (s envSnap) quiet() bool {
 		if !(readDone || (c.unreadCli == 0 && c.parkedCli)) {
 			return false
 		}
-		if !writeDone {
+		gatedHere := false
+		if !writeDone && c.busy != 0 && busyAllowed > 0 {
+			// nothing can be taken from this connection's queues until the reader is released
+			busyAllowed--
+			gatedHere = true
+		}
+		if !writeDone && !gatedHere {
 			if c.busy != 0 || e[http2.VerifEvInQueued] != e[http2.VerifEvInTaken] || e[http2.VerifEvOutQueued] != e[http2.VerifEvOutTaken] || c.winSeq != c.winSeen {
 				return false
 			}
